@@ -622,8 +622,8 @@ def deep_statements(run):
     can nest): each returns what it returns alone."""
     shared, logs = shared_context()
     eng = ec.engine()
-    deep = ["$.n" + " + 1" * 70, "1" + " + $.n" * 60, "max(1, " * 40 + "$.n" + ")" * 40, "$.l" + ".select($ + 1)" * 30 + ".toList()",
-            "[" * 25 + "$.n" + "]" * 25, "not " * 50 + "true", "sq(" * 30 + "1" + ")" * 30]
+    deep = ["$.n" + " + 1" * 90, "1" + " + $.n" * 85, "max(1, " * 45 + "$.n" + ")" * 45, "$.l" + ".select($ + 1)" * 30 + ".toList()",
+            "[" * 40 + "$.n" + "]" * 40, "not " * 60 + "true", "sq(" * 45 + "1" + ")" * 45]
     docs = [c09.host_data(), dict(c09.host_data(), n=5)]
     stmts, base = {}, {}
     for t in deep:
@@ -634,10 +634,11 @@ def deep_statements(run):
         for di, d in enumerate(docs):
             base[(t, di)] = canon(make_job(stmts[t], d, shared, logs, False)())
     texts = [t for t in stmts if all(base[(t, di)][0] == "ok" for di in range(len(docs)))]
-    for _ in range(run.n(8, 60)):
-        k = run.rng.choice([3, 4, 4])
-        t0 = run.rng.choice(texts)
-        picks = [(t0 if run.rng.random() < 0.7 else run.rng.choice(texts), run.rng.randrange(len(docs))) for _ in range(k)]
+    for _ in range(run.n(10, 60)):
+        k = 4
+        # every deep form gets its turn (all four threads inside the same form), then mixes
+        t0 = texts[_ % len(texts)] if _ < len(texts) else run.rng.choice(texts)
+        picks = [(t0 if (_ < len(texts) or run.rng.random() < 0.7) else run.rng.choice(texts), run.rng.randrange(len(docs))) for _i in range(k)]
         jobs = [make_job(stmts[t], docs[di], shared, logs, False) for t, di in picks]
         counts = [count_steps(j)[0] for j in jobs]
         # all threads go down together: round-robin while any has steps left
